@@ -1,4 +1,5 @@
 mod conc;
+mod ebr;
 mod list;
 mod pure;
 mod queue;
@@ -17,6 +18,23 @@ fn main() {
         "pure" => {
             let (lines, props, fails) = pure::run(&out, seed, thorough);
             println!("pure: lines={} property_checks={} property_failures={}", lines, props, fails);
+        }
+        "ebr" => {
+            let n: usize = arg(&args, "--cases").and_then(|s| s.parse().ok()).unwrap_or(if thorough { 5000 } else { 300 });
+            let mut o = util::Out::create(&out);
+            let mut rng = util::Rng::new(seed);
+            let mut fails = 0;
+            for _ in 0..n {
+                let (cap, g0, progs) = ebr::gen_program(&mut rng, thorough);
+                let (line, mon) = ebr::run_case(cap, g0, &progs, &mut rng, ebr::Sched::Random);
+                o.line(&line);
+                for m in mon {
+                    fails += 1;
+                    o.line(&m);
+                }
+            }
+            let lines = o.finish();
+            println!("ebr: cases={} lines={} monitor_failures={}", n, lines, fails);
         }
         "queue" | "list" => {
             let n: usize = arg(&args, "--cases").and_then(|s| s.parse().ok()).unwrap_or(if thorough { 20000 } else { 300 });
